@@ -20,6 +20,12 @@ Decided clauses:
        8-byte buffer that is fed to Poly1305 after the ciphertext are, in order, exactly the adlen parameter and the message
        length plus the size of the tag block (push: mlen + 64; pull: inlen - ABYTES + 64) - also when the absorbing steps are
        factored into helpers that return byte counts (inlined).
+  R9.6 the whole header is in the state: when init_push / init_pull return, the key bytes were last written by
+       crypto_core_hchacha20(state->k, header, k) (which reads header[0..16)) and the inonce region of the nonce is a verbatim
+       copy of header[16..24) - byte provenance of the final state (last writer per byte; copies through loops and memcpy are
+       tracked with their offset). A reset that runs after the copy wipes it, and the last 8 header bytes are unauthenticated.
+  R9.7 rekey transforms (k || inonce): the 40 bytes handed to ChaCha20 are state bytes [0, 32) followed by the inonce region (not
+       the counter), and the result is written back to the same two regions.
   R9.3 short input rejected, *mlen_p == 0 on failure (instances of R2.3 / R2.4).
 NOT decided: history-level delivery/ordering, behaviour at counter wrap as arithmetic, interop bytes.
 """
@@ -224,17 +230,33 @@ def run(ctx, chk):
                sorted(map(str, set(t_push) - set(t_pull)))[:1], sorted(map(str, set(t_pull) - set(t_push)))[:1]),
            key="R9.2-transcript push/pull")
 
-    # init agreement: state-writing events of init_push vs init_pull (header is param 1 in both)
+    # init agreement: init_push and init_pull leave the same state - compared as final byte provenance (which byte of the header /
+    # which constant / the output of which call each state byte holds when the function returns), not as event order
+    from .. import hazard as _hz
+    hz_init = _hz.Hazards(ctx, prog)
+
     def init_sig(fn):
         out = set()
         for p in cm.paths(prog, fn):
-            sh = cm.Shaper(prog, p, {0: "ST", 1: "HDR", 2: "K"})
-            sig = tuple(sh.event(e) for e in p.events
-                        if e.kind in ("call", "store") and cm.writes_through(prog, p, e, ST))
-            out.add(sig)
+            if p.kind != "ret":
+                continue
+            fin = byte_prov(prog, hz_init, p, ST, 0, 52)
+            row = []
+            for b_ in fin:
+                if isinstance(b_, tuple) and b_[0] == "cp":
+                    r = b_[1]
+                    row.append(("cp", {0: "ST", 1: "HDR", 2: "K"}.get(r[1], "P%d" % r[1]) if r[0] == "arg" else r[0], b_[2]))
+                elif isinstance(b_, tuple) and b_[0] == "w":
+                    e = p.events[b_[1]]
+                    sh = cm.Shaper(prog, p, {0: "ST", 1: "HDR", 2: "K"})
+                    row.append(("w", e.callee_name(), tuple(str(sh.ptr(a)) if isinstance(a, tuple) and a[0] in ("gep", "arg", "alloca") else "*"
+                                                            for a in e.args)))
+                else:
+                    row.append(b_)
+            out.add(tuple(row))
         return out
     a, b = init_sig(ipush), init_sig(ipull)
-    chk.ob("R9.2-init", ipull, "init_push and init_pull initialise the state by the same events", a == b and all(a),
+    chk.ob("R9.2-init", ipull, "init_push and init_pull leave the same state (byte provenance at exit)", a == b and all(a),
            detail="" if a == b else "init_push: %s | init_pull: %s" % (sorted(map(str, a - b))[:1], sorted(map(str, b - a))[:1]),
            key="R9.2-init init_push/init_pull")
 
@@ -264,6 +286,7 @@ def run(ctx, chk):
     chk.floor("R9.3", "uses of inlen - ABYTES on pull paths", n, 10)
     counter_reset_rule(ctx, prog, chk, push)
     length_block_rule(prog, chk, push, pull)
+    layout_rule(ctx, prog, chk, push)
 
 
 def region_final(prog, hz, p, root, lo, hi):
@@ -436,3 +459,187 @@ def length_block_rule(prog, chk, push, pull):
                    detail="" if ok else "length block values on this path: %s" %
                    ", ".join(T.show(v, fn) if v is not None else "?" for _e, v in vals), key="R9.5 %s length-block" % fn.sname)
     chk.floor("R9.5", "authenticating success paths of push / pull", n, 4)
+
+
+M = 1 << 62
+
+def byte_prov(prog, hz, p, root, lo, hi, upto=None):
+    """provenance of bytes [lo, hi) of object `root` after the events p.events[:upto]: per byte an int (constant), "old",
+    "unk", or ("cp", source root, source offset) for a verbatim copy of another object's byte"""
+    cur = ["old"] * (hi - lo)
+    evs = p.events if upto is None else p.events[:upto]
+
+    def lin_span(addr, size):
+        co, c = T.linear(addr)
+        if co.get(root, 0) != 1:
+            return None
+        a = b = c
+        var = {}
+        for atom, n in co.items():
+            if atom == root:
+                continue
+            iv = p.facts.interval(atom)
+            if iv is None or iv[1] > M:
+                return (0, M, None)
+            a += min(n * iv[0], n * iv[1])
+            b += max(n * iv[0], n * iv[1])
+            var[atom] = n
+        return (a, b + size, var)
+
+    def put(a, b, f, exact):
+        for k in range(max(a, lo), min(b, hi)):
+            v = f(k)
+            if exact:
+                cur[k - lo] = v
+            elif cur[k - lo] != v:
+                cur[k - lo] = "unk"
+    load_addr = {e.res: e.addr for e in evs if e.kind == "load" and e.res is not None}
+    for e in evs:
+        if e.kind == "store":
+            if T.root(e.addr) != root:
+                continue
+            sp = lin_span(e.addr, e.size)
+            if sp is None:
+                continue
+            a, b, var = sp
+            val = e.val
+            while val[0] == "cast":
+                val = val[2]
+            if val[0] == "c" and e.size == 1:
+                put(a, b, lambda k, v=val[1] & 0xff: v, b - a == e.size)
+            elif val in load_addr and e.size == 1 and var is not None:
+                # byte copy dst[c1 + i] = src[c2 + i]: same loop atoms with the same coefficients
+                sco, sc = T.linear(load_addr[val])
+                sroot = T.root(load_addr[val])
+                svar = {at: n for at, n in sco.items() if at != sroot}
+                dco, dc = T.linear(e.addr)
+                if sco.get(sroot) == 1 and svar == var:
+                    delta = sc - dc
+                    put(a, b, lambda k, r=sroot, d=delta: ("cp", r, k + d), True)
+                else:
+                    put(a, b, lambda k: "unk", b - a == e.size)
+            else:
+                put(a, b, lambda k: "unk", b - a == e.size)
+        elif e.kind == "call":
+            nm = e.callee_name() or ""
+            for k_, a_ in enumerate(e.args or ()):
+                if not (isinstance(a_, tuple) and T.root(a_) == root):
+                    continue
+                if nm.startswith(("memset", "llvm.memset")) and k_ == 0:
+                    n = e.args[2]
+                    sp = lin_span(a_, n[1] if n[0] == "c" else M)
+                    if sp is None:
+                        continue
+                    v = e.args[1][1] & 0xff if e.args[1][0] == "c" else "unk"
+                    put(sp[0], sp[1], lambda k, v=v: v, n[0] == "c" and sp[1] - sp[0] == n[1])
+                elif nm == "sodium_memzero" and k_ == 0:
+                    n = e.args[1]
+                    sp = lin_span(a_, n[1] if n[0] == "c" else M)
+                    if sp is not None:
+                        put(sp[0], sp[1], lambda k: 0, n[0] == "c" and sp[1] - sp[0] == n[1])
+                elif nm.startswith(("memcpy", "memmove", "llvm.memcpy", "llvm.memmove")):
+                    if k_ != 0:
+                        continue
+                    n = e.args[2]
+                    sp = lin_span(a_, n[1] if n[0] == "c" else M)
+                    if sp is None:
+                        continue
+                    exact = n[0] == "c" and sp[1] - sp[0] == n[1]
+                    sco, sc = T.linear(e.args[1])
+                    sroot = T.root(e.args[1])
+                    if exact and sco == {sroot: 1}:
+                        put(sp[0], sp[1], lambda k, r=sroot, d=sc - sp[0]: ("cp", r, k + d), True)
+                    else:
+                        put(sp[0], sp[1], lambda k: "unk", exact)
+                elif nm in ("store32_le", "store64_le", "store32_be", "store64_be") and k_ == 0:
+                    width = 4 if "32" in nm else 8
+                    sp = lin_span(a_, width)
+                    if sp is not None:
+                        v = e.args[1]
+                        if v[0] == "c" and sp[1] - sp[0] == width:
+                            bs = [(v[1] >> (8 * j)) & 0xff for j in range(width)]
+                            if nm.endswith("_be"):
+                                bs.reverse()
+                            put(sp[0], sp[1], lambda k, bs=bs, a0=sp[0]: bs[k - a0], True)
+                        else:
+                            put(sp[0], sp[1], lambda k: "unk", sp[1] - sp[0] == width)
+                else:
+                    if not cm.writes_through(prog, p, e, root):
+                        continue
+                    ext = hz.callee_extent(e.callee[1], k_, "store") if e.callee[0] == "fn" else None
+                    sp0 = lin_span(a_, 0)
+                    if sp0 is None:
+                        continue
+                    tag = ("w", e.idx)
+                    if ext is None:
+                        put(sp0[0], M, lambda k: "unk", False)
+                    else:
+                        put(sp0[0] + ext[0], sp0[1] + ext[1], lambda k, t=tag: t, sp0[0] == sp0[1])
+    return cur
+
+
+def layout_rule(ctx, prog, chk, push):
+    """R9.6 / R9.7: byte provenance of the state after init and around the rekey transform"""
+    from .. import hazard, inline
+    hz = hazard.Hazards(ctx, prog)
+    ST = ("arg", 0)
+    region = set()
+    for p in cm.paths(prog, push):
+        for e in p.calls("sodium_is_zero"):
+            if T.root(e.args[0]) == ST and e.args[1][0] == "c":
+                co, c = T.linear(e.args[0])
+                if co == {ST: 1}:
+                    region.add((c, c + e.args[1][1]))
+    if len(region) != 1:
+        raise AnalysisBroken("R9.6: counter region not identified")
+    clo, chi = region.pop()
+    KB = prog.K("crypto_stream_chacha20_ietf_KEYBYTES")
+    HB = prog.K("crypto_secretstream_xchacha20poly1305_HEADERBYTES")
+    HIN = prog.K("crypto_core_hchacha20_INPUTBYTES")
+    inlo, inhi = chi, chi + (HB - HIN)
+    n = 0
+    for name in ("init_push", "init_pull"):
+        fn = inline.inlined(prog, prog.need(PFX + name, rule="R9.6"))
+        HDR = ("arg", 1)
+        for p in cm.paths(prog, fn):
+            if p.kind != "ret":
+                continue
+            n += 1
+            fin = byte_prov(prog, hz, p, ST, 0, inhi)
+            kw = {b for b in fin[:KB]}
+            hc = [e for e in p.calls("crypto_core_hchacha20")]
+            ok_k = len(kw) == 1 and isinstance(fin[0], tuple) and fin[0][0] == "w" and bool(hc) and fin[0][1] == hc[-1].idx and \
+                hc[-1].args[1] == HDR and T.linear(hc[-1].args[0]) == ({ST: 1}, 0)
+            ok_n = all(fin[inlo + j] == ("cp", HDR, HIN + j) for j in range(inhi - inlo))
+            chk.ob("R9.6", fn, "the state depends on the whole header: k = HChaCha20(key, header[0..%d)), inonce = header[%d..%d)" % (HIN, HIN, HB),
+                   ok_k and ok_n, loc=fn.loc(p.end_iid), path=None if ok_k and ok_n else p,
+                   detail="" if ok_k and ok_n else "at exit the inonce bytes are %s%s" %
+                   (" ".join("%02x" % b if isinstance(b, int) else (b if isinstance(b, str) else "%s[%s]" % (T.show(b[1], fn) if b[0] == "cp" else "call", b[2] if b[0] == "cp" else b[1]))
+                             for b in fin[inlo:inhi]), "" if ok_k else "; the key is not the output of crypto_core_hchacha20(state->k, header, k)"),
+                   key="R9.6 %s header" % name)
+    chk.floor("R9.6", "returning paths of init_push / init_pull", n, 2)
+    rk = inline.inlined(prog, prog.need(PFX + "rekey", rule="R9.7"))
+    n7 = 0
+    for p in cm.paths(prog, rk):
+        if p.kind != "ret":
+            continue
+        xs = [e for e in p.calls("crypto_stream_chacha20_ietf_xor")]
+        if len(xs) != 1:
+            chk.ob("R9.7", rk, "rekey runs one ChaCha20 transform", False, loc=rk.loc(p.end_iid), path=p, key="R9.7 rekey transform")
+            continue
+        x = xs[0]
+        buf = T.root(x.args[0])
+        n7 += 1
+        want_in = [("cp", ST, j) for j in range(KB)] + [("cp", ST, inlo + j) for j in range(inhi - inlo)]
+        ln = KB + inhi - inlo
+        got_in = byte_prov(prog, hz, p, buf, 0, ln, upto=x.idx) if buf[0] == "alloca" else None
+        ok_in = got_in == want_in and x.args[0] == x.args[1] and x.args[2] == C(ln, 64)
+        fin = byte_prov(prog, hz, p, ST, 0, inhi)
+        ok_out = all(fin[j] == ("cp", buf, j) for j in range(KB)) and all(fin[inlo + j] == ("cp", buf, KB + j) for j in range(inhi - inlo))
+        chk.ob("R9.7", rk, "rekey encrypts k || inonce (state[0..%d) || state[%d..%d)) in place and writes both back" % (KB, inlo, inhi),
+               ok_in and ok_out, loc=rk.loc(x.iid), path=None if ok_in and ok_out else p,
+               detail="" if ok_in and ok_out else ("transform input bytes %d..%d come from %s" %
+               (KB, ln, " ".join("state[%s]" % b[2] if isinstance(b, tuple) and b[0] == "cp" and b[1] == ST else str(b) for b in (got_in or [])[KB:ln]))
+                                                    if not ok_in else "the transformed bytes are not what the key / inonce regions hold at exit"),
+               key="R9.7 rekey layout")
+    chk.floor("R9.7", "returning paths of rekey", n7, 1)
